@@ -95,7 +95,8 @@ def readList (s : String) : List Comment :=
   (s.splitOn ",").map fun h => ⟨.block, if h == "e" then [] else strOfHex h⟩
 
 open SamVerif.CommentQueue SamVerif.Imports in
-/-- `path;kind=hex,..|-;hexmember,..|-` joined by `/` (or `-` for no imports). -/
+/-- `path;kind=hex,..|-;member,..|-` joined by `/` (or `-` for no imports); member = `hexname` or
+`hexname@kind=hex&kind=hex` (comments stored on the member). -/
 def readImports (s : String) : List Import :=
   if s == "-" then [] else
   (s.splitOn "/").map fun item =>
@@ -106,7 +107,13 @@ def readImports (s : String) : List Import :=
           match c.splitOn "=" with
           | [k, h] => ⟨kindOf k, strOfHex h⟩
           | _ => ⟨.block, []⟩,
-        members := if ms == "-" then [] else (ms.splitOn ",").map strOfHex }
+        members := if ms == "-" then [] else (ms.splitOn ",").map fun m =>
+          match m.splitOn "@" with
+          | [n, cs] => { name := strOfHex n, comments := (cs.splitOn "&").map fun c =>
+              match c.splitOn "=" with
+              | [k, h] => ⟨kindOf k, strOfHex h⟩
+              | _ => ⟨.block, []⟩ }
+          | _ => { name := strOfHex m, comments := [] } }
     | _ => { path := [], comments := [], members := [] }
 
 open SamVerif.CommentQueue SamVerif.Imports in
